@@ -63,6 +63,21 @@ def correspondence(ctx):
                         B.qstr(wp[1]), qbytes(key), qres(rp, B.qbf3_obj)))
                     descr.append(("read_file(path)", wp[1], key))
                     ctx.case(("readpath", wp[1], key), trivial=not comps)
+            # the same object written again after it was modified (the model is stateless)
+            if i % 3 == 0:
+                def rewrite():
+                    extra = B.gen_comp(r)
+                    f.components.append(B.build({}, [extra]).components[0])
+                    if f.components and r.random() < 0.5:
+                        f.components[0].description[0x55] = b"zz"
+                    f.comments["again"] = "1"
+                    s2 = __import__("io").StringIO()
+                    f.write_file(s2, key)
+                    return s2.getvalue()
+                w2 = run_impl(rewrite)
+                exprs.append("res_eqb str_eqb (write_file toy_enc toy_mac %s %s) %s" % (B.qbf3_obj(f), qbytes(key), qres(w2, B.qstr)))
+                descr.append(("write_file(second write after modification)", repr(B.file_view(f))[:600], key))
+                ctx.case(("rewrite", repr(B.file_view(f)), key))
             if i == 3:
                 ctx.sample({"comments": cm, "components": [[{hex(k): v for k, v in d.items()}, b, a, e] for d, b, a, e in comps],
                             "key": key, "text": text[:200]})
@@ -106,6 +121,46 @@ def search(ctx):
         if why:
             ctx.fail("bf3-roundtrip", {"comments": cm, "comps": [[{str(k): v for k, v in d.items()}, b, a, e] for d, b, a, e in comps],
                                        "key": key, "check": check, "path": via_path}, why)
+    # histories on one object: write, modify (append / remove / retag / set_config), write again, read back
+    import io as _io
+    from bec2format.bf3file import Bf3File as _Bf3File
+    for i in range(ctx.budget(60, 1500)):
+        cm, comps = B.gen_file(r, enc_prob=0.0)
+        key = B.rkey(r)
+        f = B.build(cm, comps)
+        ops = []
+        bad = None
+        for step in range(r.randrange(2, 5)):
+            s_ = _io.StringIO()
+            try:
+                f.write_file(s_, key)
+            except OverflowError:
+                break
+            rd = run_impl(lambda: _Bf3File.read_file(_io.StringIO(s_.getvalue()), True, key))
+            if rd[0] != "ok":
+                bad = "after %r the writer's output is rejected by the reader: %s" % (ops, rd[1])
+                break
+            want, got = B.file_view(f), B.file_view(rd[1])
+            want = (want[0], [(d, b if not e else b[:a], a, e) for d, b, a, e in want[1]])
+            got = (got[0], [(d, b if not e else b[:a], a, e) for d, b, a, e in got[1]])
+            if want != got:
+                bad = "after %r the file reads back differently" % (ops,)
+                break
+            op = r.choice(["append", "remove", "retag", "set_config", "comment"])
+            ops.append(op)
+            if op == "append":
+                f.components.append(B.build({}, [B.gen_comp(r)]).components[0])
+            elif op == "remove" and f.components:
+                del f.components[r.randrange(len(f.components))]
+            elif op == "retag" and f.components:
+                f.components[r.randrange(len(f.components))].description[r.choice([0x11, 0xC8])] = bytes(r.randrange(256) for _ in range(r.randrange(0, 9)))
+            elif op == "set_config":
+                f.set_config({(0x0101, 1): bytes(r.randrange(256) for _ in range(r.randrange(1, 30)))})
+            else:
+                f.comments["k%d" % step] = "v"
+        ctx.case(("history", repr(cm), repr(comps), key, tuple(ops)))
+        if bad:
+            ctx.fail("bf3-roundtrip-history", {"comments": cm, "ncomps": len(comps), "key": key, "ops": ops}, bad)
     # boundary enumeration: every payload length 1..48 and around multiples of 16, trailing zero runs
     for ln in B.PAYLOAD_LENS:
         for z in (0, 1, 16, min(ln, 17)):
